@@ -1499,10 +1499,12 @@ class C06Checker(Checker):
         generator (numba's stream equals RandomState's); if `actual_refill` is given it is
         used for the (single) refill instead. Returns (table, ptr, used, refills, ambiguous,
         last_batch) or None when the key's counters are not identifiable."""
-        from .world import batch_for
+        from .world import batch_for, map_ptr
 
-        ds, ptr = ev.get("ds", 1), int(ev.get("ptr", 0))
-        batch = batch_for(ds)
+        sk = info["sk"]
+        B = len(sk.rand_nums)
+        ds, ptr = ev.get("ds", 1), map_ptr(sk, ev.get("ptr", 0))
+        batch = batch_for(ds, B)
         rs = None
         tab = ctx["tab"].copy()
         ambiguous = False
@@ -1525,7 +1527,7 @@ class C06Checker(Checker):
                 else:
                     if rs is None:
                         rs = np.random.RandomState((ds + 1) & 0xFFFFFFFF)
-                    batch = rs.random_sample(2048)
+                    batch = rs.random_sample(B)
                 ptr = 0
                 refills += 1
             if c != c0:
@@ -1534,73 +1536,131 @@ class C06Checker(Checker):
                         tab[r, col] = c
         return tab, ptr, used_total, refills, ambiguous, batch
 
+    def exact_walk(self, w, ev, ctx, info, ref):
+        """Compares the event with the reference walk. Returns None when the event cannot be
+        mirrored (unidentifiable cells, several unpredicted refills, a draw inside the
+        ambiguity band), else (ok, text)."""
+        from .world import batch_for, map_ptr
+
+        sk = info["sk"]
+        B = len(sk.rand_nums)
+        m = self.mirror(w, ev, ctx, info, ref)
+        if m is None:
+            return None
+        tab, ptr, used_total, refills, ambiguous, batch = m
+        if refills and not np.array_equal(sk.rand_nums, batch):
+            # the code's generator is not the stream the simulator predicted: legal. With a
+            # single refill the batch actually drawn is observable and the walk is redone
+            # with it; with several, intermediate batches are gone.
+            w.probes["refill_not_predicted_by_seeded_generator"] += 1
+            total_v = sum(v for _, v in info["exp"])
+            ptr0 = map_ptr(sk, ev.get("ptr", 0))
+            if refills > 1 or total_v > (B - min(ptr0, B)) + B:
+                w.probes["unmirrorable_multi_refill_event"] += 1
+                return None
+            m = self.mirror(w, ev, ctx, info, ref, actual_refill=np.array(sk.rand_nums))
+            tab, ptr, used_total, refills, ambiguous, batch = m
+        if ambiguous:
+            w.probes["draw_inside_ambiguity_band_skipped"] += 1
+            return None
+        if not np.array_equal(tab, sk.cms):
+            idx = np.argwhere(tab != sk.cms)[0]
+            return False, ("counter_walk_differs_from_decision_law",
+                           f"{ev['op']}: cell{idx.tolist()} model={int(tab[tuple(idx)])} actual={int(sk.cms[tuple(idx)])} "
+                           f"(ptr0={ev.get('ptr', 0)}, refills={refills})"), used_total
+        if int(sk.rand_ptr) != ptr:
+            return False, ("draw_pointer_mismatch",
+                           f"{ev['op']}: rand_ptr={int(sk.rand_ptr)} model={ptr} (consumed {used_total} draws, refills={refills})"), used_total
+        return True, None, used_total
+
     def accounting(self, w, ev, ctx, info):
-        from .world import batch_for
+        """(c) What the statement fixes about the draws, per workload event:
+        * whatever the code puts into the batch is uniform [0,1) material that is new
+          (replenished, never recycled), and the read position never moves backwards over
+          draws that were already handed out;
+        * a decision beyond the reserved range needs a fresh draw, so the read position (or the
+          batch) must have moved when one was due;
+        * an event made of UNIT adds only (add(key), update(list), add_ngram, update_ngram,
+          update(dict) with counts of 1) follows the decision law draw by draw: it is
+          compared with the reference walk, under either convention for the certain step at
+          c == num_reserved (a draw spent on it, as the pinned tree does, or none).
+        Events with other multiplicities are only held to the first two points here: that
+        add(key, v) equals v unit adds under identical draws is C12's statement, and how many
+        draws such an add consumes is fixed by neither."""
+        from .world import batch_for, map_ptr
 
         sk = info["sk"]
         ref = self.get_ref(sk)
-        total_v = sum(v for _, v in info["exp"])
-        dn = int(sk.n_added()) - ctx["nadd"]
-        capped = bool((sk.cms == sk.uint_maxval).any())
-        if (dn != total_v and not capped) or not (0 <= dn <= total_v):
-            self.fail("n_added_not_grown_by_v", f"{ev['op']}: n_added grew by {dn}, expected {total_v}")
-        m = self.mirror(w, ev, ctx, info, ref)
-        if m is None:
-            return
-        tab, ptr, used_total, refills, ambiguous, batch = m
-        first = batch_for(ev.get("ds", 1))
-        if refills:
-            w.probes["batch_refilled"] += refills
-            cur = sk.rand_nums
+        B = len(sk.rand_nums)
+        first = batch_for(ev.get("ds", 1), B)
+        ptr0 = map_ptr(sk, ev.get("ptr", 0))
+        cur = sk.rand_nums
+        ptr1 = int(sk.rand_ptr)
+        changed = not np.array_equal(cur, first)
+        if changed:
+            w.probes["batch_refilled"] += 1
             if not ((cur >= 0.0).all() and (cur < 1.0).all()):
                 self.fail("draw_outside_unit_interval", ev["op"])
             if float((cur == first).mean()) > 0.01:
-                self.fail("batch_recycled", f"{ev['op']}: after the batch was exhausted {int((cur == first).sum())} of 2048 "
-                                            f"draws are the old ones")
-            if not np.array_equal(cur, batch):
-                # the code's generator is not the stream the simulator predicted: legal. With a
-                # single refill the batch actually drawn is observable and the walk is redone
-                # with it; with several, intermediate batches are gone and the event cannot be
-                # mirrored.
-                w.probes["refill_not_predicted_by_seeded_generator"] += 1
-                # with an unpredicted generator the number of refills the code really made is
-                # not observable; only events that cannot have needed more than one are redone
-                ptr0 = int(ev.get("ptr", 0))
-                if refills > 1 or total_v > (2048 - min(ptr0, 2048)) + 2048:
-                    w.probes["unmirrorable_multi_refill_event"] += 1
-                    return
-                m = self.mirror(w, ev, ctx, info, ref, actual_refill=np.array(cur))
-                tab, ptr, used_total, refills, ambiguous, batch = m
-        else:
-            if not np.array_equal(sk.rand_nums, first):
-                self.fail("batch_changed_without_exhaustion", ev["op"])
-        if ambiguous:
-            w.probes["draw_inside_ambiguity_band_skipped"] += 1
+                self.fail("batch_recycled", f"{ev['op']}: after the batch was replaced {int((cur == first).sum())} of {B} draws are the old ones")
+        if not (0 <= ptr1 <= B):
+            self.fail("draw_pointer_out_of_range", f"{ev['op']}: rand_ptr={ptr1}, batch of {B}")
+        if not changed and ptr1 < ptr0:
+            self.fail("draws_recycled_pointer_moved_back", f"{ev['op']}: rand_ptr {ptr0} -> {ptr1} without a new batch")
+        # was a probabilistic decision certainly due? (first unit of the event, counter strictly
+        # inside (num_reserved, maximum))
+        due = False
+        for k, v in info["exp"]:
+            if v < 1:
+                continue
+            cells = w.owner_cells(w.ident(k))
+            if cells is not False:
+                c0 = min(int(ctx["tab"][r, c]) for r, c in enumerate(cells))
+                due = ref.nr < c0 < ref.maxval
+            break
+        if due:
+            w.probes["events_with_a_draw_certainly_due"] += 1
+            if not changed and ptr1 == ptr0:
+                self.fail("draw_due_but_pointer_not_advanced", f"{ev['op']}: a decision beyond the reserved range was due, rand_ptr stayed {ptr0} and the batch is unchanged: the next decision reuses a draw")
+        unit_only = all(v == 1 for _, v in info["exp"])
+        verdict = None
+        for conv in (True, False):
+            ref.draw_at_nr = conv
+            r = self.exact_walk(w, ev, ctx, info, ref)
+            if r is None:
+                verdict = None
+                break
+            verdict = r
+            if r[0]:
+                break
+        ref.draw_at_nr = True
+        if verdict is None:
             return
-        if not np.array_equal(tab, sk.cms):
-            idx = np.argwhere(tab != sk.cms)[0]
-            self.fail("counter_walk_differs_from_decision_law", f"{ev['op']}: cell{idx.tolist()} model={int(tab[tuple(idx)])} actual={int(sk.cms[tuple(idx)])} (ptr0={ev.get('ptr',0)}, refills={refills})")
-        if int(sk.rand_ptr) != ptr:
-            self.fail("draw_pointer_mismatch", f"{ev['op']}: rand_ptr={int(sk.rand_ptr)} model={ptr} (consumed {used_total} draws, refills={refills})")
-        if used_total:
-            w.probes["probabilistic_decisions_mirrored"] += used_total
+        ok, why, used_total = verdict
+        if ok:
+            if used_total:
+                w.probes["probabilistic_decisions_mirrored"] += used_total
+            return
+        if unit_only:
+            self.fail(why[0], why[1])
+        w.probes["multi_add_event_off_the_unit_walk_tolerated"] += 1
 
     # -- (a) decision law by placed draws --------------------------------------------
     def law(self, w, ev, info):
         c, c2, u, p = info["c"], info["c2"], info["u"], info["p"]
         nr, mx = info["nr"], info["maxval"]
-        if info["dn"] != 1 and not (c >= mx and info["dn"] == 0):
-            self.fail("n_added_not_grown_by_v", f"law probe: n_added grew by {info['dn']}")
         if c >= mx:
-            if c2 != c or info["ptr2"] != info["ptr"]:
-                self.fail("maximum_counter_moved_or_drew", f"c={c} -> {c2}, ptr {info['ptr']} -> {info['ptr2']}")
+            if c2 != c or info["ptr2"] not in (info["ptr"], info["ptr"] + 1):
+                self.fail("maximum_counter_moved", f"c={c} -> {c2}, ptr {info['ptr']} -> {info['ptr2']}")
             w.probes["law_at_maximum"] += 1
             return
-        if c < nr:
+        if c <= nr:
+            # certain step (probability 1 at c == num_reserved): exact; whether a draw is
+            # spent on it is not part of the law, re-reading an old one would be
             if c2 != c + 1:
-                self.fail("reserved_range_not_exact", f"counter {c} < num_reserved={nr} -> {c2} on a unit add")
-            if info["ptr2"] != info["ptr"]:
-                self.fail("draw_consumed_in_reserved_range", f"c={c} ptr {info['ptr']} -> {info['ptr2']}")
+                self.fail("reserved_range_not_exact", f"counter {c} <= num_reserved={nr} -> {c2} on a unit add")
+            if info["ptr2"] not in (info["ptr"], info["ptr"] + 1):
+                self.fail("draw_pointer_mismatch", f"law probe at c={c}: ptr {info['ptr']} -> {info['ptr2']}")
             w.probes["law_in_reserved_range"] += 1
             return
         if info["ptr2"] != info["ptr"] + 1:
@@ -1684,7 +1744,7 @@ class C06(WMode):
             c = rng.randrange(0, mx + 1)
         return {"op": "law", "node": rng.randrange(len(w.nodes)), "key": rng.choice(w.cfg["pool"]), "c": c,
                 "side": rng.choice(["below", "above", "below", "above", "far_below", "far_above", "zero", "max"]),
-                "ptr": rng.choice([0, 1, 2047, rng.randrange(2048)]), "ds": rng.getrandbits(31)}
+                "ptr": rng.choice([0, 1, 2047, rng.randrange(2048)]), "ds": rng.getrandbits(31)}  # 2047 = last slot (map_ptr)
 
     def nontrivial(self, w):
         return w.probes["probabilistic_decisions_mirrored"] > 0 or w.counters["law"] > 0
